@@ -18,7 +18,7 @@ func init() {
 		explain: "Decided on source constants and the SSA program: (P14-lang) the tag pattern is language-equivalent to the specification's tag syntax #name[=value] with name/unquoted value over letters, digits, _ and -, and values quoted by matching \" or ' on one line; the unquoted-value pattern equals [\\p{L}\\d_-]+; " +
 			"(P14-lower) the stored tag name is lower-cased and the value is not; (P14-barename) Put also registers the bare name and Contains is a lookup of the very tag; (P14-merge / P14-once) per entry the tag set is Merge(record tags, entry tags), the aggregation iterates the keys of that set and adds the entry's duration once per key; Summary.Tags folds over all matches of all summary lines; tag filters test set membership of every queried tag. " +
 			"Not covered: quote stripping of values, klog tags rendering, --tag decoding beyond NewTagFromString, leftmost-first alternation effects of the pattern.",
-		rules: []ruleFn{ruleP14Lang, ruleP14Model, ruleP14Aggregate},
+		rules: []ruleFn{ruleP14Lang, ruleP14Unquote, ruleP14Model, ruleP14Aggregate},
 		trusted: []string{"reference language for tags transcribed from Specification.md: #[\\p{L}\\d_-]+(=(\"[^\"]*\"|'[^']*'|[\\p{L}\\d_-]*))?"},
 	})
 	register(&propSpec{
